@@ -22,6 +22,8 @@ ASSUMPTIONS = [
     "model dimension is fixed over a history (a dimension change of the model of an existing generator raises IndexError "
     "or keeps a period of the old length; outside the property)",
     "seed=None (random seed) is not modelled",
+    "nugget = 0: the nugget term of Fourier.__call__ is pointwise independent noise and not periodic by construction; "
+    "theorems and checks are about the mode sum (add_nugget=False / models without nugget)",
 ]
 
 # models with a closed-form spectral density (numerically transformed spectra go negative at large k -> sqrt = nan;
@@ -525,6 +527,52 @@ def search_isclose(ctx, viol):
     return 2
 
 
+def search_directed(ctx, viol):
+    """corpus: the concrete inputs of the defects found while building this check (F1-F3, fixed in /repo), replayed first"""
+    import gstools as gs
+    from gstools.field.generator import Fourier
+    rng = np.random.RandomState(ctx.seed + 1714)
+    ev = 0
+    # F1: 33/50 gave 51 modes with the float-step np.arange; a later period change then built half-integer modes
+    m = gs.Gaussian(dim=1, var=1, len_scale=5)
+    srf = gs.SRF(m, generator="Fourier", period=33.0, mode_no=50, seed=1)
+    ev += 1
+    if [int(v) for v in srf.generator.mode_no] != [50]:
+        viol.append({"key": "fourier:arange-length", "what": "period=33, mode_no=50 builds %s modes" % list(srf.generator.mode_no),
+                     "case": dict(period=33.0, mode_no=50)})
+    srf.generator.period = 40.0
+    e, _ = check_periodic(srf, rng, viol, "fourier:periodicity-residual:after-update" +
+                          ("-odd-mode_no" if any(int(v) % 2 for v in srf.generator.mode_no) else ""),
+                          dict(ctor=dict(period=33.0, mode_no=50), then="generator.period = 40.0"))
+    ev += e
+    # F2: same model + new mode_no / same seed + new period must reseed (amplitudes of the right length, fresh spectrum factor)
+    m2 = gs.Gaussian(dim=2, var=1, len_scale=5, anis=0.5)
+    x = np.array([[1.234, 7.7], [0.3, 2.2]])
+    for kw, fresh_kw in ((dict(model=m2, mode_no=[16, 16]), dict(period=[32.0, 20.0], mode_no=[16, 16])),
+                         (dict(model=m2, period=[16.0, 10.0]), dict(period=[16.0, 10.0], mode_no=[8, 16])),
+                         (dict(seed=1, period=[16.0, 10.0]), dict(period=[16.0, 10.0], mode_no=[8, 16]))):
+        g = Fourier(m2, period=[32.0, 20.0], mode_no=[8, 16], seed=1)
+        g.update(**kw)
+        f = Fourier(m2, seed=1, **fresh_kw)
+        ev += 1
+        ok = len(g._z_1) == g.modes.shape[1] == len(g._spectrum_factor) and np.array_equal(g(x), f(x))
+        if not ok:
+            viol.append({"key": "fourier:update-same-model-no-reseed", "what": "update with an equal model / equal seed changed the grid without reseeding",
+                         "case": dict(update={k: (str(v) if k == "model" else v) for k, v in kw.items()})})
+    # F3: a rejected odd mode_no must not leave the new period behind
+    g = Fourier(gs.Gaussian(dim=1, var=1, len_scale=5), period=32.0, mode_no=8, seed=1)
+    try:
+        g.update(period=20.0, mode_no=7)
+        viol.append({"key": "fourier:odd-mode_no-accepted", "what": "odd mode_no accepted", "case": dict(mode_no=7)})
+    except ValueError:
+        pass
+    ev += 1
+    if float(g.period[0]) != 32.0 or not np.allclose(g._delta_k, 2 * np.pi / 32.0):
+        viol.append({"key": "fourier:odd-mode_no-partial-update", "what": "update(period=20, mode_no=7) raised but stored period 20",
+                     "case": dict(period=np.asarray(g.period).tolist())})
+    return ev
+
+
 def search(ctx, deep=False):
     f = 3 if deep else 1
     viol = []
@@ -535,6 +583,7 @@ def search(ctx, deep=False):
         except Exception as ex:     # noqa: BLE001
             viol.append({"key": f"fourier:search-exception:{name}", "what": f"{type(ex).__name__}: {ex}", "case": {}})
             return default
+    ev0 = guarded("directed", lambda: search_directed(ctx, viol), 0)
     ev1, worst = guarded("periodic", lambda: search_periodic(ctx, ctx.scale(120, 2500) * f, viol), (0, float("nan")))
     ev2 = guarded("arange", lambda: search_arange(ctx, ctx.scale(1500, 40000) * f, viol), 0)
     ev3 = guarded("histories", lambda: search_histories(ctx, ctx.scale(100, 2500) * f, viol), 0)
@@ -545,8 +594,8 @@ def search(ctx, deep=False):
         if v["key"] not in seen:
             seen.add(v["key"])
             out.append(v)
-    return {"evaluations": ev1 + ev2 + ev3 + ev4, "violations": out[:8],
-            "summary": f"{ev1} periodicity residuals of SRF(generator='Fourier') at off-grid points along (rotated) main axes, dim 1-3 "
+    return {"evaluations": ev0 + ev1 + ev2 + ev3 + ev4, "violations": out[:8],
+            "summary": f"{ev0} replays of the F1-F3 inputs; {ev1} periodicity residuals of SRF(generator='Fourier') at off-grid points along (rotated) main axes, dim 1-3 "
                        f"(worst residual/scale {worst:.2e}); {ev2} mode-count / integer-multiple checks of the grid; {ev3} checks along "
                        f"setter / update / in-place model-change histories (periodic with the new settings, equal to a fresh SRF, "
                        f"state untouched by a rejected odd mode_no); isclose-band anisotropy change (known finding)"}
